@@ -108,14 +108,14 @@ def rule_r3(repo):
 
 def run(repo, check):
     from sa.rules import c02
-    check.add(rule_r1(repo))
+    check.run_rule(rule_r1, repo)
     r2 = c02.rule_r2(repo)
     r2.rule = 'C03.R2'
     r2.title = 'round before int at the three numeric encode sites (shared with C02.R2)'
     for f in r2.findings:
         f.rule = 'C03.R2'
     check.add(r2)
-    check.add(rule_r3(repo))
+    check.run_rule(rule_r3, repo)
     r4 = c02.rule_r1(repo, check.tier)
     r4.rule = 'C03.R4'
     r4.title = 'what the encoder writes is what the decoder reads: codec symmetry (shared with C02.R1)'
